@@ -19,16 +19,26 @@ Inductive case :=
 
 Definition mkexn (c : str) (a : list str) : exn := {| cls := c; eargs := a |}.
 
+(* prepare_run / _cannot_be_parallelized: map(parallel=True) WITHOUT an executor (entry 3) falls back to the
+   sequential in-process path when no function has a MapSpec and every generation is a single function *)
+Definition cannot_par (gens : list (list mfunc)) : bool :=
+  forallb (fun f => match fspec f with None => true | Some _ => false end) (concat gens)
+  && forallb (fun g => length g =? 1) gens.
+Definition eff_flags (entry : nat) (gens : list (list mfunc)) (par inproc : bool) : bool * bool :=
+  if (entry =? 3) && cannot_par gens then (false, true) else (par, inproc).
+
 Definition run (c : case) : sx :=
   match c with
   | CPipe p o kw full _ tgt e => C13Pipe.pipe_run p o kw full tgt e
-  | CMap gens inputs internal dump_sub par inproc _ tgt e =>
-      C13Map.map_run gens inputs internal dump_sub par inproc tgt e
+  | CMap gens inputs internal dump_sub par inproc entry tgt e =>
+      let '(par', inproc') := eff_flags entry gens par inproc in
+      C13Map.map_run gens inputs internal dump_sub par' inproc' tgt e
   end.
 
 Definition spec_ok (c : case) (obs : sx) : bool :=
   match c with
   | CPipe p o kw full _ tgt e => C13Pipe.pipe_spec_ok p o kw full tgt e obs
-  | CMap gens inputs internal dump_sub par inproc _ tgt e =>
-      C13Map.map_spec_ok gens inputs internal dump_sub par inproc tgt e obs
+  | CMap gens inputs internal dump_sub par inproc entry tgt e =>
+      let '(par', inproc') := eff_flags entry gens par inproc in
+      C13Map.map_spec_ok gens inputs internal dump_sub par' inproc' tgt e obs
   end.
